@@ -274,8 +274,12 @@ func invRunCase(id string, in bhInput, gen *bhGenerator) Case {
 						ps = append(ps, k+"="+v)
 					}
 					sort.Strings(ps)
-					obs.Credited = append(obs.Credited, fmt.Sprintf("height %d tx %d: %s signed by U%d naming the blocked address %s (%s) as recipient was ACCEPTED and credited it with %s (parameters changed so far: %s)",
-						height, txNo, t.K, ((t.F%bhNU)+bhNU)%bhNU, name, addr, gained, strings.Join(ps, " ")))
+					what := "credited it with " + gained.String()
+					if len(gained) == 0 {
+						what = "paid it " + t.A + t.D + " (besides the fee)"
+					}
+					obs.Credited = append(obs.Credited, fmt.Sprintf("height %d tx %d: %s signed by U%d naming the blocked address %s (%s) as recipient was ACCEPTED and %s (parameters changed so far: %s)",
+						height, txNo, t.K, ((t.F%bhNU)+bhNU)%bhNU, name, addr, what, strings.Join(ps, " ")))
 				}
 			}
 		},
